@@ -1,9 +1,630 @@
-//! stub — not built yet
+//! C20 -- 6LoWPAN compression and fragmentation are lossless.
+//!
+//! Bounded-exhaustive enumeration (no sampling) of scenarios executed on two REAL smoltcp
+//! interfaces on `Medium::Ieee802154` joined by an in-memory network; the same scenario is run on
+//! two interfaces on `Medium::Ip` and the receivers' socket-level observations are compared
+//! (differential oracle), plus direct clauses (frame size, nothing delivered that was not sent,
+//! every accepted in-bounds datagram delivered exactly once for in-order frames). A second part
+//! captures the fragments of a datagram and feeds every permutation (+ one duplicate) to a fresh
+//! receiver. See `lowpan/scen.rs` for the oracles and `lowpan/world.rs` for the plumbing.
+
+mod scen;
+mod world;
+
 use crate::core::*;
-pub fn run(_tier: Tier) -> i32 {
-    eprintln!("harness not built yet");
-    2
+use rayon::prelude::*;
+use scen::*;
+use serde_json::{json, Value};
+use std::collections::BTreeSet;
+use world::*;
+
+/// sizes of the compressed headers for a scenario; used ONLY to pick boundary payload lengths in
+/// the quick tier (stimulus selection); the thorough tier runs every length.
+fn header_sizes(scn: &Scn) -> (usize, usize, usize, usize) {
+    let l2 = |hw: HwKind| if hw == HwKind::Ext { 8 } else { 2 };
+    let mac = 3 + 2 + if scn.dst.is_mcast() { 2 } else { l2(scn.r_hw) } + l2(scn.s_hw);
+    let a = |c: AddrClass| match c {
+        AddrClass::LlHw => 0,
+        AddrClass::Ll16 => 2,
+        AddrClass::Ll64 => 8,
+        AddrClass::Global | AddrClass::Ctx | AddrClass::McFull => 16,
+        AddrClass::McAllNodes | AddrClass::Mc8 => 1,
+        AddrClass::Mc32 => 4,
+        AddrClass::Mc48 | AddrClass::McSolicited => 6,
+    };
+    let hlb = if matches!(scn.hl, 1 | 64 | 255) { 0 } else { 1 };
+    let iphc = 2 + hlb + a(scn.src) + a(scn.dst);
+    match scn.proto() {
+        Proto::Udp => {
+            let both4 = |p: u16| (0xf0b0..=0xf0bf).contains(&p);
+            let any8 = |p: u16| (0xf000..=0xf0ff).contains(&p);
+            let ports = if both4(scn.sport) && both4(scn.dport) {
+                1
+            } else if any8(scn.sport) || any8(scn.dport) {
+                3
+            } else {
+                4
+            };
+            // (mac, compressed hdr, uncompressed hdr, body bytes that are not payload)
+            (mac, iphc + 3 + ports, 48, 0)
+        }
+        _ => (mac, iphc + 1, 40, 8),
+    }
 }
-pub fn replay(_art: &serde_json::Value) -> i32 {
-    2
+
+fn boundary_lens(scn: &Scn) -> Vec<usize> {
+    let (mac, ch, uh, extra) = header_sizes(scn);
+    let avail = 125usize.saturating_sub(mac);
+    let diff = uh - ch.min(uh);
+    let frag1 = ((avail.saturating_sub(4) + diff) / 8 * 8).saturating_sub(diff);
+    let fragn = avail.saturating_sub(5) / 8 * 8;
+    let mut b: Vec<i64> = vec![avail as i64 - ch as i64];
+    for k in 0..=3i64 {
+        b.push(frag1 as i64 - ch as i64 + k * fragn as i64);
+    }
+    let mut set: BTreeSet<usize> = [0usize, 1, 2, 1400].into_iter().collect();
+    let maxin = max_ipv6_len() - uh - extra;
+    set.insert(maxin - 1);
+    set.insert(maxin);
+    // beyond the buffers: only the safety clauses apply
+    set.insert(maxin + 1);
+    set.insert(maxin + 21);
+    for x in b {
+        for d in [-9i64, -8, -7, -2, -1, 0, 1, 2, 7, 8, 9] {
+            let v = x - extra as i64 + d;
+            if v >= 0 {
+                set.insert(v as usize);
+            }
+        }
+    }
+    set.into_iter().collect()
+}
+
+fn all_lens(uh_extra: usize) -> Vec<usize> {
+    let maxin = max_ipv6_len() - uh_extra;
+    let mut v: Vec<usize> = (0..=maxin).collect();
+    v.push(maxin + 1);
+    v.push(maxin + 21);
+    v
+}
+
+struct Plan {
+    udp: Vec<(Scn, Vec<usize>, Option<usize>)>,
+    b2b: Vec<Scn>,
+    perm: Vec<Scn>,
+    icmp: Vec<Scn>,
+    tcp: Vec<Scn>,
+    dims: Value,
+}
+
+fn addr_pairs_ext() -> Vec<(AddrClass, AddrClass)> {
+    let mut v = vec![];
+    for s in UNICAST_CLASSES {
+        for d in UNICAST_CLASSES.iter().chain(MCAST_CLASSES.iter()) {
+            v.push((s, *d));
+        }
+    }
+    v
+}
+
+fn plan(tier: Tier) -> Plan {
+    let thorough = tier == Tier::Thorough;
+    let mut udp = vec![];
+    let mut push_udp = |s_hw: HwKind, r_hw: HwKind, src: AddrClass, dst: AddrClass, pan: bool, mtu: usize, sp: u16, dp: u16, hl: u8| {
+        let mut j = Scn::base("udp");
+        j.s_hw = s_hw;
+        j.r_hw = r_hw;
+        j.src = src;
+        j.dst = dst;
+        j.pan = pan;
+        j.mtu = mtu;
+        j.sport = sp;
+        j.dport = dp;
+        j.hl = hl;
+        if !j.feasible() {
+            return;
+        }
+        let mut lens = if thorough { all_lens(48) } else { boundary_lens(&j) };
+        if !thorough && (sp, dp, hl) == (1234, 1234, 64) && pan && mtu == 1500 {
+            // quick tier: the first four fragments exhaustively for every address pair
+            let mut set: BTreeSet<usize> = lens.iter().copied().collect();
+            set.extend(0..=420usize);
+            lens = set.into_iter().collect();
+        }
+        let (mac, ch, _, _) = header_sizes(&j);
+        let pred = 125usize.checked_sub(mac + ch);
+        udp.push((j, lens, pred));
+    };
+    // A: extended hardware addresses on both sides: address classes x 4x4 ports x hop limits
+    for (s, d) in addr_pairs_ext() {
+        for sp in PORTS {
+            for dp in PORTS {
+                for hl in HOP_LIMITS {
+                    push_udp(HwKind::Ext, HwKind::Ext, s, d, true, 1500, sp, dp, hl);
+                }
+            }
+        }
+    }
+    // B: no PAN id configured / device MTU as a Linux 802.15.4 raw socket reports it
+    for (pan, mtu) in [(false, 1500usize), (true, 125)] {
+        for s in [AddrClass::LlHw, AddrClass::Global] {
+            for d in [AddrClass::LlHw, AddrClass::Global, AddrClass::McAllNodes] {
+                for (sp, dp) in [(1234u16, 1234u16), (0xf012, 0xf0b7)] {
+                    for hl in [64u8, 7] {
+                        push_udp(HwKind::Ext, HwKind::Ext, s, d, pan, mtu, sp, dp, hl);
+                    }
+                }
+            }
+        }
+    }
+    // C: short hardware addresses (see Scn::feasible for what can be set up)
+    let short_cfgs: [(HwKind, HwKind, &[AddrClass], &[AddrClass]); 3] = [
+        (HwKind::Short, HwKind::Ext, &[AddrClass::LlHw, AddrClass::Global], &[AddrClass::LlHw, AddrClass::McAllNodes, AddrClass::McSolicited, AddrClass::Mc32]),
+        (HwKind::Ext, HwKind::Short, &[AddrClass::LlHw, AddrClass::Ll16], &[AddrClass::McAllNodes, AddrClass::Mc8]),
+        (HwKind::Short, HwKind::Short, &[AddrClass::LlHw], &[AddrClass::McAllNodes, AddrClass::McSolicited]),
+    ];
+    for (sh, rh, srcs, dsts) in short_cfgs {
+        for s in srcs {
+            for d in dsts {
+                for sp in PORTS {
+                    for dp in PORTS {
+                        for hl in HOP_LIMITS {
+                            push_udp(sh, rh, *s, *d, true, 1500, sp, dp, hl);
+                        }
+                    }
+                }
+            }
+        }
+    }
+
+    // back to back
+    let b2b_sizes: Vec<usize> = if thorough { vec![0, 8, 60, 100, 150, 200, 300, 600, 1200] } else { vec![8, 100, 200, 600] };
+    let b2b_pairs: Vec<(HwKind, AddrClass, AddrClass)> = if thorough {
+        let mut v: Vec<_> = addr_pairs_ext().into_iter().map(|(s, d)| (HwKind::Ext, s, d)).collect();
+        v.push((HwKind::Short, AddrClass::LlHw, AddrClass::McAllNodes));
+        v.push((HwKind::Short, AddrClass::LlHw, AddrClass::LlHw));
+        v
+    } else {
+        vec![
+            (HwKind::Ext, AddrClass::LlHw, AddrClass::LlHw),
+            (HwKind::Ext, AddrClass::Global, AddrClass::Global),
+            (HwKind::Ext, AddrClass::LlHw, AddrClass::McAllNodes),
+            (HwKind::Ext, AddrClass::Ll64, AddrClass::Ctx),
+            (HwKind::Short, AddrClass::LlHw, AddrClass::McAllNodes),
+        ]
+    };
+    let b2b_ports: Vec<(u16, u16)> = if thorough {
+        PORTS.iter().flat_map(|a| PORTS.iter().map(move |b| (*a, *b))).collect()
+    } else {
+        vec![(1234, 1234), (0xf012, 0xf0b7)]
+    };
+    let mut b2b = vec![];
+    for (sh, s, d) in &b2b_pairs {
+        for (sp, dp) in &b2b_ports {
+            for a in &b2b_sizes {
+                for b in &b2b_sizes {
+                    let mut j = Scn::base("b2b");
+                    j.s_hw = *sh;
+                    j.src = *s;
+                    j.dst = *d;
+                    j.sport = *sp;
+                    j.dport = *dp;
+                    j.lens = vec![*a, *b];
+                    if j.feasible() {
+                        b2b.push(j);
+                    }
+                }
+            }
+        }
+    }
+
+    // fragment order: datagrams that need 2..=4 fragments
+    let perm_pairs: Vec<(HwKind, AddrClass, AddrClass)> = if thorough {
+        let mut v: Vec<_> = addr_pairs_ext().into_iter().map(|(s, d)| (HwKind::Ext, s, d)).collect();
+        v.push((HwKind::Short, AddrClass::LlHw, AddrClass::McAllNodes));
+        v
+    } else {
+        vec![
+            (HwKind::Ext, AddrClass::LlHw, AddrClass::LlHw),
+            (HwKind::Ext, AddrClass::Global, AddrClass::Global),
+            (HwKind::Ext, AddrClass::Ll16, AddrClass::Ll64),
+            (HwKind::Ext, AddrClass::Ctx, AddrClass::McSolicited),
+            (HwKind::Ext, AddrClass::LlHw, AddrClass::McAllNodes),
+            (HwKind::Short, AddrClass::LlHw, AddrClass::McAllNodes),
+        ]
+    };
+    let perm_ports: Vec<(u16, u16)> = vec![(1234, 1234), (0xf012, 1234), (1234, 0xf0b7), (0xf0b7, 0xf0b1)];
+    let mut perm = vec![];
+    for (sh, s, d) in &perm_pairs {
+        for (sp, dp) in &perm_ports {
+            let mut j = Scn::base("perm");
+            j.s_hw = *sh;
+            j.src = *s;
+            j.dst = *d;
+            j.sport = *sp;
+            j.dport = *dp;
+            if !j.feasible() {
+                continue;
+            }
+            let lens: Vec<usize> = if thorough { (40..=440).collect() } else { boundary_lens(&j).into_iter().filter(|l| *l <= 440).collect() };
+            for l in lens {
+                let mut k = j.clone();
+                k.lens = vec![l];
+                perm.push(k);
+            }
+        }
+    }
+
+    // ICMPv6 echo: `src` is the class of S's second address (the stack selects the source itself)
+    let mut icmp = vec![];
+    let icmp_dsts = [AddrClass::LlHw, AddrClass::Ll16, AddrClass::Ll64, AddrClass::Global, AddrClass::Ctx, AddrClass::McAllNodes];
+    for s in UNICAST_CLASSES {
+        for d in icmp_dsts {
+            for hl in HOP_LIMITS {
+                let mut j = Scn::base("icmp");
+                j.src = s;
+                j.dst = d;
+                j.hl = hl;
+                let lens = if thorough { all_lens(48) } else { boundary_lens(&j) };
+                for l in lens {
+                    let mut k = j.clone();
+                    k.lens = vec![l];
+                    icmp.push(k);
+                }
+            }
+        }
+    }
+
+    // TCP: a short connection, N bytes each way
+    let tcp_n: Vec<usize> = if thorough { vec![0, 1, 2, 10, 64, 65, 66, 100, 200, 500, 1000, 1439, 1440, 1441, 2000, 3000, 5000] } else { vec![0, 1, 100, 1000, 3000] };
+    let tcp_pairs = [
+        (AddrClass::LlHw, AddrClass::LlHw),
+        (AddrClass::Ll16, AddrClass::Ll16),
+        (AddrClass::Ll64, AddrClass::Ll64),
+        (AddrClass::Global, AddrClass::Global),
+        (AddrClass::Ctx, AddrClass::Ctx),
+        (AddrClass::LlHw, AddrClass::Global),
+        (AddrClass::Global, AddrClass::LlHw),
+        (AddrClass::Ll16, AddrClass::Ll64),
+        (AddrClass::Ctx, AddrClass::Global),
+    ];
+    let tcp_hl: Vec<u8> = if thorough { HOP_LIMITS.to_vec() } else { vec![64, 7] };
+    let mut tcp = vec![];
+    for (s, d) in tcp_pairs {
+        for mtu in [1500usize, 125] {
+            for hl in &tcp_hl {
+                for n in &tcp_n {
+                    let mut j = Scn::base("tcp");
+                    j.src = s;
+                    j.dst = d;
+                    j.mtu = mtu;
+                    j.hl = *hl;
+                    j.sport = 0xf0b1;
+                    j.dport = 0xf0b2;
+                    j.lens = vec![*n];
+                    tcp.push(j);
+                }
+            }
+        }
+    }
+
+    let dims = json!({
+        "udp": {
+            "jobs (address pair x port pair x hop limit x hw kinds x pan x mtu)": udp.len(),
+            "source address classes": UNICAST_CLASSES.iter().map(|c| c.name()).collect::<Vec<_>>(),
+            "destination address classes": UNICAST_CLASSES.iter().chain(MCAST_CLASSES.iter()).map(|c| c.name()).collect::<Vec<_>>(),
+            "ports (source x destination, 4x4)": PORTS.iter().map(|p| format!("{:#06x}", p)).collect::<Vec<_>>(),
+            "hop limits": HOP_LIMITS,
+            "hardware address kinds (S,R)": ["ext-ext", "short-ext", "ext-short", "short-short"],
+            "lengths per job": if thorough { json!(format!("every length 0..={} plus 2 beyond the buffers", max_ipv6_len() - 48)) } else { json!("0,1,2, largest unfragmented +-2 (+-7..9), exact fill of fragments 1..4 +-2 (+-7..9), 1400, max in bounds, 2 beyond; for ports 1234x1234, hop limit 64 additionally every length 0..=420") },
+            "lengths of the first job": udp.first().map(|(_, l, _)| l.len()),
+            "exchanges in total": udp.iter().map(|(_, l, _)| l.len()).sum::<usize>(),
+        },
+        "b2b": {"scenarios": b2b.len(), "sizes (each of two datagrams)": b2b_sizes, "address pairs": b2b_pairs.len(), "port pairs": b2b_ports.len()},
+        "perm": {"captures": perm.len(), "address pairs": perm_pairs.len(), "port pairs": perm_ports.len(), "sequences": "n!: 2/6/24 permutations; n<=3: + every permutation with one fragment inserted a second time at any position (6 resp. 36 distinct sequences more)"},
+        "icmp": {"scenarios": icmp.len(), "address configs": UNICAST_CLASSES.len() * icmp_dsts.len(), "hop limits": HOP_LIMITS},
+        "tcp": {"scenarios": tcp.len(), "bytes each way": tcp_n, "address pairs": tcp_pairs.len(), "device mtu": [1500, 125], "hop limits": tcp_hl},
+    });
+    Plan { udp, b2b, perm, icmp, tcp, dims }
+}
+
+fn run_one(scn: &Scn, acc: &mut Acc) {
+    match scn.part.as_str() {
+        "udp" => run_udp_job(scn, &scn.lens.clone(), None, false, acc),
+        "b2b" => run_b2b(scn, acc),
+        "icmp" => run_icmp(scn, acc),
+        "tcp" => run_tcp(scn, acc),
+        "mld" => run_mld(acc),
+        "perm" => {
+            if scn.order.is_empty() {
+                run_perm(scn, acc);
+            } else {
+                // replay of one order: capture again, then deliver exactly that order
+                let mut base = scn.clone();
+                base.order = vec![];
+                let cap = std::panic::catch_unwind(std::panic::AssertUnwindSafe(|| {
+                    let mut w = World::new(&base.world_cfg(Med::Lowpan));
+                    prepare(&mut w, &base);
+                    w.udp_rebind(base.sport, base.dport, base.hl);
+                    udp_exchange(&mut w, &base).frames
+                }));
+                match cap {
+                    Ok(frames) if scn.order.iter().all(|i| *i < frames.len()) => eval_perm(scn, &frames, acc),
+                    Ok(_) => acc.machinery.push("perm replay: captured fewer fragments than the order refers to".into()),
+                    Err(_) => acc.machinery.push("perm replay: capture panicked".into()),
+                }
+            }
+        }
+        other => acc.machinery.push(format!("unknown part {}", other)),
+    }
+}
+
+fn par_run<T: Sync, F: Fn(&T, &mut Acc) + Sync>(items: &[T], chunk: usize, f: F) -> Acc {
+    let parts: Vec<Acc> = items
+        .par_chunks(chunk.max(1))
+        .map(|c| {
+            let mut a = Acc::default();
+            for it in c {
+                f(it, &mut a);
+            }
+            a
+        })
+        .collect();
+    let mut acc = Acc::default();
+    for p in parts {
+        acc.merge(p);
+    }
+    acc
+}
+
+/// split a raw signature `C20/<clause>/<proto>/[..]<tag>|<class>` into (prefix, tag)
+fn split_raw(sig: &str) -> Option<(String, String)> {
+    let bar = sig.find('|')?;
+    let head = &sig[..bar];
+    let slash = head.rfind('/')?;
+    Some((sig[..=slash].to_string(), head[slash + 1..].to_string()))
+}
+
+/// does `scn` still violate a clause whose raw signature starts with `prefix`?
+fn check(scn: &Scn, prefix: &str) -> Option<(String, bool)> {
+    let mut a = Acc::default();
+    run_one(scn, &mut a);
+    let hit = a.viols.iter().find(|(k, _)| k.starts_with(prefix)).map(|(_, (_, d))| d.clone());
+    hit.map(|d| (d, a.interrupted))
+}
+
+fn final_sig(prefix: &str, tag: &str, scn: &Scn, interrupted: bool) -> String {
+    if tag.starts_with("order=") {
+        let n = scn.order.iter().max().map(|m| m + 1).unwrap_or(0);
+        format!("{}{},{}", prefix, order_class(&scn.order, n), label_of(scn, interrupted))
+    } else {
+        format!("{}{}", prefix, label_of(scn, interrupted))
+    }
+}
+
+fn finalize(sig: &str, scn: &Scn, _detail: &str) -> Result<(String, Scn, String), String> {
+    // field / panic signatures carry no scenario class: they keep their name, only the scenario
+    // is reduced
+    let (prefix, tag, keep_name) = match split_raw(sig) {
+        Some((p, t)) => (p, t, false),
+        None => (sig.to_string(), String::new(), true),
+    };
+    let mut cur = scn.clone();
+    let Some((mut det, mut flag)) = check(&cur, &prefix) else {
+        return Err(format!("replay of {} does not reproduce it", sig));
+    };
+    let mut cands: Vec<Box<dyn Fn(&Scn) -> Scn>> = vec![
+        Box::new(|s| Scn { s_hw: HwKind::Ext, r_hw: HwKind::Ext, ..s.clone() }),
+        Box::new(|s| Scn { s_hw: HwKind::Ext, ..s.clone() }),
+        Box::new(|s| Scn { r_hw: HwKind::Ext, ..s.clone() }),
+        Box::new(|s| Scn { pan: true, ..s.clone() }),
+        Box::new(|s| Scn { mtu: 1500, ..s.clone() }),
+        Box::new(|s| Scn { hl: 64, ..s.clone() }),
+        Box::new(|s| Scn { src: AddrClass::LlHw, ..s.clone() }),
+        Box::new(|s| Scn { dst: AddrClass::LlHw, ..s.clone() }),
+    ];
+    if scn.proto() == Proto::Udp {
+        // the port PAIR selects one NHC encoding branch: reset it as a whole (resetting one port
+        // would move the scenario into a different branch, possibly into a different defect)
+        cands.push(Box::new(|s| Scn { sport: 1234, dport: 1234, ..s.clone() }));
+    }
+    if scn.part == "b2b" {
+        cands.push(Box::new(|s| Scn { part: "udp".into(), lens: vec![s.lens[0]], ..s.clone() }));
+        cands.push(Box::new(|s| Scn { part: "udp".into(), lens: vec![*s.lens.last().unwrap()], ..s.clone() }));
+    }
+    // smaller inputs of the same kind
+    if scn.part == "udp" {
+        for l in [0usize, 1, 8, 64, 100, 200, 300] {
+            cands.push(Box::new(move |s| if s.part == "udp" && s.lens.len() == 1 && l < s.lens[0] { Scn { lens: vec![l], ..s.clone() } } else { s.clone() }));
+        }
+    }
+    if scn.part == "tcp" {
+        for l in [0usize, 1, 100, 1000, 2000, 3000] {
+            cands.push(Box::new(move |s| if l < s.lens[0] { Scn { lens: vec![l], ..s.clone() } } else { s.clone() }));
+        }
+    }
+    for c in &cands {
+        let cand = c(&cur);
+        if cand == cur || !cand.feasible() {
+            continue;
+        }
+        if let Some((d, f)) = check(&cand, &prefix) {
+            cur = cand;
+            det = d;
+            flag = f;
+        }
+    }
+    let name = if keep_name { sig.to_string() } else { final_sig(&prefix, &tag, &cur, flag) };
+    Ok((name, cur, det))
+}
+
+pub fn run(tier: Tier) -> i32 {
+    let mut rep = Report::new("C20", tier);
+    rep.assumptions.push("two real smoltcp Interfaces per world joined by a loss-free, order-preserving in-memory network (SimDevice); time is the harness' Instant, advanced 100us per exchange round (TCP: jumps to poll_at when idle)".into());
+    rep.assumptions.push(format!(
+        "delivery is demanded only for datagrams whose uncompressed IPv6 size is <= min(FRAGMENTATION_BUFFER_SIZE={}, REASSEMBLY_BUFFER_SIZE={}); larger ones only have to be safe",
+        smoltcp::config::FRAGMENTATION_BUFFER_SIZE,
+        smoltcp::config::REASSEMBLY_BUFFER_SIZE
+    ));
+    rep.assumptions.push("fragment-order part: delivery demanded only when FRAG1 arrives first (lenient reading of 'any order the reassembler can track'); every order must be safe (the original datagram at most once, or nothing)".into());
+    rep.assumptions.push("neighbors are resolved by the real NS/NA exchange before each scenario (warm-up datagrams on separate sockets); a node with a SHORT hardware address cannot be resolved (NDISC link-layer option must be 8 octets) so it only sends to multicast or to a neighbor that solicited it".into());
+    rep.assumptions.push("frames handed to the device carry no FCS: limit is 125 octets (127 with FCS)".into());
+    rep.assumptions.push("the sender never emits context-based (stateful) IPHC: the ctx class has address context 0 installed on both nodes and is expected to travel uncompressed".into());
+    rep.assumptions.push("receiver accepts the multicast classes mc-8bit/32bit/48bit/full through Interface::set_any_ip(true) because join_multicast_group on this medium is itself under test (mld part)".into());
+
+    let p = plan(tier);
+    rep.cov("dimensions", p.dims.clone());
+    rep.cov(
+        "rule",
+        json!("full product of the listed dimensions per part; every scenario is executed on a 6LoWPAN world and on a Medium::Ip reference world; evaluations = scenarios + fragment sequences fed to fresh receivers; distinct_nontrivial = datagrams/streams that went through compress -> (fragment) -> reassemble -> decompress and reached the receiving socket intact"),
+    );
+
+    let mut total = Acc::default();
+    // samples from the baseline job
+    {
+        let mut a = Acc::default();
+        let mut j = Scn::base("udp");
+        j.sport = 0xf012;
+        run_udp_job(&j, &[0, 200], None, true, &mut a);
+        total.samples.extend(a.samples);
+        // one fragment-order sample: 3 fragments delivered as FRAGN, FRAGN(dup), FRAG1, FRAGN
+        let mut k = Scn::base("perm");
+        k.lens = vec![200];
+        k.src = AddrClass::Global;
+        k.dst = AddrClass::Global;
+        let r = std::panic::catch_unwind(std::panic::AssertUnwindSafe(|| {
+            let mut w = World::new(&k.world_cfg(Med::Lowpan));
+            prepare(&mut w, &k);
+            w.udp_rebind(k.sport, k.dport, k.hl);
+            let frames = udp_exchange(&mut w, &k).frames;
+            let order = vec![2usize, 2, 0, 1];
+            let ok = order.iter().all(|i| *i < frames.len());
+            let (obs, _, _) = if ok { deliver_fresh(&k, &frames, &order) } else { (vec![], vec![], 0) };
+            json!({"scenario": k.to_json(), "fragments": frames.iter().map(|f| describe_frame(f)).collect::<Vec<_>>(), "order_fed_to_fresh_receiver": order,
+                "delivered": obs.iter().map(|o| json!({"len": o.payload.len(), "intact": o.payload == pattern(200, 0), "sport": o.sport})).collect::<Vec<_>>()})
+        }));
+        if let Ok(v) = r {
+            total.samples.push(v);
+        }
+        // one TCP sample
+        let mut t = Scn::base("tcp");
+        t.lens = vec![1000];
+        t.mtu = 125;
+        t.hl = 7;
+        t.sport = 0xf0b1;
+        t.dport = 0xf0b2;
+        let mut ta = Acc::default();
+        run_tcp(&t, &mut ta);
+        total.samples.push(json!({"scenario": t.to_json(), "outcome": ta.outcomes.keys().collect::<Vec<_>>(), "frames": ta.frames}));
+    }
+    let udp = par_run(&p.udp, 1, |(j, lens, pred), a| run_udp_job(j, lens, *pred, false, a));
+    let t_udp = rep.t0.elapsed().as_secs_f64();
+    total.merge(udp);
+    total.merge(par_run(&p.b2b, 16, |s, a| run_b2b(s, a)));
+    let t_b2b = rep.t0.elapsed().as_secs_f64();
+    total.merge(par_run(&p.perm, 8, |s, a| run_perm(s, a)));
+    let t_perm = rep.t0.elapsed().as_secs_f64();
+    total.merge(par_run(&p.icmp, 16, |s, a| run_icmp(s, a)));
+    let t_icmp = rep.t0.elapsed().as_secs_f64();
+    total.merge(par_run(&p.tcp, 1, |s, a| run_tcp(s, a)));
+    let t_tcp = rep.t0.elapsed().as_secs_f64();
+    {
+        let mut a = Acc::default();
+        run_mld(&mut a);
+        total.merge(a);
+    }
+
+    // Raw signatures carry the full scenario class; reduce each to its minimal cause by resetting
+    // every dimension that is not needed for the failure to the baseline (re-executing the
+    // scenario each time), then name the signature after what is left. The minimized scenario is
+    // the replay artefact, and it has just been re-executed and seen failing.
+    let mut validated = 0u64;
+    let raws: Vec<(String, Scn, String)> = total.viols.iter().map(|(k, (s, d))| (k.clone(), s.clone(), d.clone())).collect();
+    let minimized: Vec<Result<(String, Scn, String), String>> = raws.par_iter().map(|(sig, scn, detail)| finalize(sig, scn, detail)).collect();
+    let mut fin: std::collections::BTreeMap<String, (Scn, String)> = Default::default();
+    for m in minimized {
+        match m {
+            Ok((sig, scn, detail)) => {
+                validated += 1;
+                let key = |s: &Scn| (s.lens.iter().sum::<usize>(), s.order.len(), s.clone());
+                match fin.get(&sig) {
+                    Some((old, _)) if key(old) <= key(&scn) => {}
+                    _ => {
+                        fin.insert(sig, (scn, detail));
+                    }
+                }
+            }
+            Err(e) => rep.machinery_errors.push(e),
+        }
+    }
+    rep.cov("raw_failure_classes_before_minimization", json!(raws.len()));
+    for (sig, (scn, detail)) in fin {
+        rep.violation(sig, detail, scn.to_json());
+    }
+    for m in &total.machinery {
+        rep.machinery_errors.push(m.clone());
+    }
+
+    rep.add_count("states", total.scenarios + total.perm_sequences);
+    rep.add_count("evaluations", total.scenarios + total.perm_sequences);
+    rep.add_count("transitions", total.polls);
+    rep.add_count("traces_validated_against_impl", validated);
+    rep.add_count("distinct_nontrivial", total.delivered + total.perm_delivered_frag1_first + total.perm_delivered_other_order);
+    rep.cov("scenarios_per_part", json!(total.per_part));
+    rep.cov("datagrams_or_streams_accepted_by_sender", json!(total.datagrams));
+    rep.cov("delivered_intact", json!(total.delivered));
+    rep.cov("beyond_buffer_bounds (safety clauses only)", json!(total.beyond_bounds));
+    rep.cov("frames_captured", json!(total.frames));
+    rep.cov("interface_polls", json!(total.polls));
+    rep.cov("worlds_built", json!(total.worlds));
+    rep.cov("warmup_datagram_not_delivered", json!(total.warm_fail));
+    rep.cov("frames_per_datagram_histogram (udp+icmp, S->R frames of one exchange)", json!(total.frag_hist.iter().map(|(k, v)| (k.to_string(), *v)).collect::<std::collections::BTreeMap<_, _>>()));
+    rep.cov(
+        "fragmentation_threshold_check",
+        json!({"jobs where len=T is sent in 1 frame and len=T+1 in >=2 frames, T predicted from the header sizes": total.boundary_confirmed, "mispredicted": total.boundary_mispredicted,
+            "distinct thresholds T": total.thresholds.values().next().map(|v| v.iter().copied().collect::<Vec<_>>())}),
+    );
+    rep.cov(
+        "fragment_order",
+        json!({"sequences_fed_to_fresh_receivers": total.perm_sequences, "delivered_frag1_first": total.perm_delivered_frag1_first,
+            "delivered_although_fragn_first": total.perm_delivered_other_order, "not_delivered_fragn_first (allowed)": total.perm_undelivered_other_order,
+            "captures_skipped_because_in_order_delivery_already_fails": total.perm_skipped_base_fails}),
+    );
+    rep.cov("distinct_outcomes", json!(total.outcomes));
+    rep.cov("notes", json!(total.notes));
+    rep.cov("back_to_back_exchanges_delivered_in_a_different_order (allowed)", json!(total.reordered));
+    rep.cov("wall_s_after_part", json!({"udp": t_udp, "b2b": t_b2b, "perm": t_perm, "icmp": t_icmp, "tcp": t_tcp}));
+    rep.samples = total.samples.clone();
+    rep.finish()
+}
+
+pub fn replay(art: &Value) -> i32 {
+    let scn = Scn::from_json(&art["replay"]);
+    println!("replaying scenario {}", scn.to_json());
+    let mut a = Acc::default();
+    run_one(&scn, &mut a);
+    for (k, v) in &a.outcomes {
+        println!("outcome: {} x{}", k, v);
+    }
+    for m in &a.machinery {
+        eprintln!("MACHINERY ERROR: {}", m);
+    }
+    if a.viols.is_empty() {
+        println!("no violation on replay");
+        return if a.machinery.is_empty() { 0 } else { 2 };
+    }
+    let mut sigs = vec![];
+    for (sig, (_, d)) in &a.viols {
+        let fs = match split_raw(sig) {
+            Some((prefix, tag)) => final_sig(&prefix, &tag, &scn, a.interrupted),
+            None => sig.clone(),
+        };
+        println!("violation: {}\n  {}", fs, d);
+        sigs.push(fs);
+    }
+    let want = art["signature"].as_str().unwrap_or("");
+    if !want.is_empty() && !sigs.iter().any(|s| s == want) {
+        println!("(the recorded signature {} was not among them)", want);
+    }
+    1
 }
